@@ -10,7 +10,7 @@ import json, os, re, shutil, subprocess, sys, hashlib
 
 ROOT = os.environ.get("SQV_ROOT", "/verif")
 WORK = f"{ROOT}/.work"
-BIN = f"{WORK}/target-fuzz/x86_64-unknown-linux-gnu/release/multi"
+BIN = os.environ.get("SQV_FUZZ_BIN", f"{WORK}/target-fuzz/x86_64-unknown-linux-gnu/release/multi")
 
 GOLDEN = {
     "tok": [b"SELECT `a`, \"b\" FROM [t] WHERE x = 'it''s' AND y = $1 -- c", b"'a\\'b' \"q\\\"\" `x``y` ? ?? $10 1.5e3", b"", b"a'"],
